@@ -66,8 +66,17 @@ SetRefAt(doc, key, r) == IF ~Has(doc, key) THEN doc ELSE SetAt(doc, key, [At(doc
 \* InlineSchemaNamer.Name also re-targets every anonymous pointer whose chain now ends on the new definition
 Dependants(doc, name) ==
   { x[1] : x \in { y \in RefsIn(doc) : ~IsTopLevelRef(y[2]) /\ y[2][1] = "root" /\ Deepest(doc, y[2], 16) = <<"root", "definitions", name>> } }
+\* every $ref to a place strictly inside `old` follows the schema to `new`
+RECURSIVE RebaseSet(_, _, _, _)
+RebaseSet(doc, xs, old, new) ==
+  IF xs = {} THEN doc
+  ELSE LET x == CHOOSE y \in xs : TRUE
+       IN RebaseSet(SetRefAt(doc, x[1], new \o SubSeq(x[2], Len(old) + 1, Len(x[2]))), xs \ {x}, old, new)
+RebaseInto(doc, old, new) == RebaseSet(doc, { x \in RefsIn(doc) : IsPrefixOf(old, x[2]) /\ Len(x[2]) > Len(old) }, old, new)
 NameWithDependants(doc, key, name, marker, sch) ==
-  LET d1 == NameSchema(doc, key, name, marker, sch) IN Retarget(d1, Dependants(d1, name), name)
+  LET d1 == NameSchema(doc, key, name, marker, sch)
+      d2 == IF Has(doc, key) THEN RebaseInto(d1, <<"root">> \o key, <<"root", "definitions", name>>) ELSE d1   \* (repo fix 62d799a)
+  IN Retarget(d2, Dependants(d2, name), name)
 \* a pointer whose chain ends on a top-level definition is replaced by that $ref
 PointerTop(doc, key, r) == SetRefAt(doc, key, r)
 \* a pointer to a simple schema with a single caller is expanded in place (the schema at the target, not expanded further)
@@ -81,7 +90,8 @@ StripOne(doc, defPath, parents) ==
   ELSE LET sch == At(doc, defPath)
            d1  == SetAt(doc, parents[1], sch)
            d2  == PointAll(d1, Tail(parents), <<"root">> \o parents[1])
-       IN DelAt(d2, defPath)
+           d3  == DelAt(d2, defPath)
+       IN RebaseInto(d3, <<"root">> \o defPath, <<"root">> \o parents[1])           \* (repo fix 744069f)
 
 \* ---- step 7: one pass of unused-definition removal ------------------------------------------------------
 Unused(doc)     == { n \in Defs(doc) : DefPos(n) \notin Targeted(doc) }
